@@ -408,7 +408,11 @@ pub fn run_sharded(args: &Args, n: usize) -> Outcome {
                 }
             }
         }
-        if !found || !out.status.success() {
+        if found && !out.status.success() {
+            // the outcome line is the worker's last action: a crash while the process exits does not taint it
+            merged.notes.push(format!("shard {} ended with {:?} after reporting its outcome", i, out.status));
+        }
+        if !found {
             merged.machinery_errors.push(format!(
                 "shard {}/{} failed: status {:?}, tail: {}",
                 i,
